@@ -300,6 +300,8 @@ RULES = [rule_r1, rule_r2, rule_r3, rule_r4, rule_r5, rule_r6, rule_r7]
 from ..selftest import M, T, V  # noqa: E402
 
 selftest = [
+    M("continue-extra-guard", "channel.py", "                    and not self.requests\n                    and not self.sent_continue\n                ):", "                    and not self.requests\n                    and not self.sent_continue\n                    and not self.total_outbufs_len\n                ):", "R2"),
+    T("continue-liveness-guard", "channel.py", "                    and not self.requests\n                    and not self.sent_continue\n                ):", "                    and not self.requests\n                    and not self.sent_continue\n                    and self.connected\n                ):"),
     M("completed-reset", "channel.py", "            self._flush_exception(self._flush_some, do_close=False)\n\n    def received", "            self._flush_exception(self._flush_some, do_close=False)\n        self.request.completed = False\n\n    def received", "R1"),
     M("error-cleared", "channel.py", "                n = self.request.received(data)\n", "                n = self.request.received(data)\n                self.request.error = None\n", "R1"),
     M("no-latch-test", "channel.py", "                    and not self.requests\n                    and not self.sent_continue\n                ):", "                    and not self.requests\n                ):", "R2"),
